@@ -374,6 +374,9 @@ class LogicalType(type):  # noqa
                     # like NormalFloat = AllOf(Float, Not(AbnormalFloat))('3.3')
                     value = context.transformer(value, con)
                 except Exception as e:
+                    if not isinstance(e, exc.ParseError):
+                        # a converter's own TypeError / ValueError / OverflowError must not escape as it is
+                        e = exc.ParseError(value=value, type=con, origin_exc=e)
                     context.handle_error(e)
                     break
             return value
